@@ -51,6 +51,7 @@ pub fn run_universe(bytes: &[u8], seg: &[usize], limit: u32, u: usize, out: &mut
     let mut buf = BytesMut::with_capacity(4096);
     let mut fed = 0usize;
     let mut exec: Vec<String> = Vec::new();
+    let mut ropq: Vec<String> = Vec::new();
     let mut all_resp: Vec<u8> = Vec::new();
     let mut closed = false;
     let mut panicked = false;
@@ -116,13 +117,23 @@ pub fn run_universe(bytes: &[u8], seg: &[usize], limit: u32, u: usize, out: &mut
                         ev["opc"] = json!(hv["opcode"].as_u64().unwrap_or(0));
                         ev["toolarge"] = json!(tl);
                         exec.push(hv["opaque"].as_u64().unwrap_or(0).to_string());
-                        ev["r"] = json!(parse_responses(&resp));
+                        let prs = parse_responses(&resp);
+                        for r in &prs {
+                            ropq.push(r["opq"].as_str().unwrap_or("").to_string());
+                        }
+                        ev["r"] = json!(prs);
                         all_resp.extend_from_slice(&resp);
                     }
                     writeln!(out, "{}", ev).unwrap();
                     events += 1;
                     match outc {
                         "frame" => {
+                            // quit / quitq end the connection loop (client_handler.rs); nothing behind them is decoded
+                            let opc = ev["opc"].as_u64().unwrap_or(0);
+                            if opc == 0x07 || opc == 0x17 {
+                                closed = true;
+                                break 'outer;
+                            }
                             if ev["toolarge"].as_bool() == Some(true) {
                                 // the connection layer discards the body; that part is exercised over TCP only
                                 closed = true;
@@ -159,7 +170,7 @@ pub fn run_universe(bytes: &[u8], seg: &[usize], limit: u32, u: usize, out: &mut
         events += 1;
     }
     writeln!(out, "{}", json!({"e": "end", "closed": closed, "panic": panicked, "pos": fed - buf.len(), "fed": fed,
-        "exec": exec, "resp": hex(&all_resp)})).unwrap();
+        "exec": exec, "ropq": ropq, "resp": hex(&all_resp)})).unwrap();
     events + 1
 }
 
